@@ -359,8 +359,12 @@ class CellVariable:
         CellVariable
             Copy of the CellVariable.
         """
-        return CellVariable(self.domain, np.copy(self._value),
-                            deepcopy(self.BCs))
+        newcell = CellVariable(self.domain, np.copy(self._value),
+                               deepcopy(self.BCs))
+        # the ghost cells are copied as they are: if they are out of date in
+        # the original (pending change of .value), they are in the copy, too
+        newcell._value.modified = self._value.modified
+        return newcell
     
     def plotprofile(self):
         """
